@@ -728,7 +728,7 @@ int main(int argc, char** argv) {
     const int maxlen = run.thorough() ? 4 : 3;
     g_order_depth = run.thorough() ? 3 : 2;
     const std::vector<int> bases = {0, 1, 2};
-    run.rule = "N BPR vectors, N in {1..12} u {k*1000+d-4: k=1..4, |d|<=" + std::string(run.thorough() ? "5" : "2") + "} u {4500} (total PARAMS count P=N+4 straddles every multiple of 1000) x ALL step scripts of length <= " + std::to_string(maxlen) + " over {m: substep, M: closing ministep, w: write} x FMTOUT x UNIFOUT x {no base, base run restarted at r=1,2}; readers ESmry full, ESmry selective (+lazy get of every vector), conversion->ExtESmry, writer's ESMRY->ExtESmry (unformatted only); for P in 4..8 additionally every sequence of <= " + std::to_string(run.thorough() ? 3 : 2) + " access operations over {dates, get(K1), get(Klast), loadData({K1,K2}), loadData with a repeated key, loadData with TIME in the middle, loadData(), get_at_rstep} on ONE fresh ESmry / ExtESmry object followed by the comparison of all vectors; all vectors x all ministeps compared with float(SummaryState) fingerprints, dates, report-step positions, units, start date; distinct = distinct file byte strings";
+    run.rule = "N BPR vectors, N in {1..12} u {k*1000+d-4: k=1..4, |d|<=" + std::string(run.thorough() ? "5" : "2") + "} u {4500} (total PARAMS count P=N+4 straddles every multiple of 1000) x ALL step scripts of length <= " + std::to_string(maxlen) + " (N=1: <= " + std::to_string(maxlen + 2) + ") over {m: substep, M: closing ministep, w: write} x FMTOUT x UNIFOUT x {no base, base run restarted at r=1,2}; readers ESmry full, ESmry selective (+lazy get of every vector), conversion->ExtESmry, writer's ESMRY->ExtESmry (unformatted only); for P in 4..8 additionally every sequence of <= " + std::to_string(run.thorough() ? 3 : 2) + " access operations over {dates, get(K1), get(Klast), loadData({K1,K2}), loadData with a repeated key, loadData with TIME in the middle, loadData(), get_at_rstep} on ONE fresh ESmry / ExtESmry object followed by the comparison of all vectors; all vectors x all ministeps compared with float(SummaryState) fingerprints, dates, report-step positions, units, start date; distinct = distinct file byte strings";
 #endif
     run.assumptions = {"reference model in the harness: series = values handed to add_timestep (float), time axis/report steps from the script",
                        "legacy SMSPEC/UNSMRY can only express 'last ministep of a SEQHDR group' as report step; a trailing open report step therefore reads as a report step in ESmry (accepted, counted), ESMRY's RSTEP flags are compared with the isSubstep flags",
@@ -748,6 +748,7 @@ int main(int argc, char** argv) {
 
     const auto Ns = n_values(run.thorough());
     const auto scr = scripts(maxlen);
+    const auto scr_long = scripts(maxlen + 2);      // N = 1 only: longer write histories (batch sizes that grow and shrink)
     uint64_t gi = 0;
     bool stop = false;
     for (int N : Ns) for (int f = 0; f < 2 && !stop; ++f) for (int u = 0; u < 2 && !stop; ++u) for (int b : bases) {
@@ -756,7 +757,7 @@ int main(int argc, char** argv) {
         std::unique_ptr<CaseGroup> G;
         try { G = make_group(N, f, u, b); }
         catch (const std::exception& ex) { run.violation("C10:harness:setup", std::string("deck/base run setup threw: ") + ex.what() + " N=" + std::to_string(N)); continue; }
-        for (auto& s : scr) {
+        for (auto& s : (N == 1 ? scr_long : scr)) {
             if (run.timed_out()) { stop = true; break; }
             try { run_case(*G, s); }
             catch (const std::exception& ex) { run.violation("C10:harness:case", std::string("unexpected exception: ") + ex.what() + " [" + case_string(N, f, u, b, s) + "]"); }
